@@ -816,8 +816,89 @@ def reattach_cases(ctx):
                           {"suite": "c14-reattach", "case": case, "first_failing_clause": "ratio of the rates in force / refused iff not dividing"})
 
 
+# ---- the internal clock run again (implementation-only oracle) ---------------------------------------------------------
+# "floor(elapsed / tick duration) ticks ... none dropped or doubled" — for every run() of a clock, counted from the moment
+# THAT run starts: a clock that ran before (and ended because it was stopped, because the timeline ran out of events, or
+# because a tick raised) must not make up for the time it was not running.
+
+def rerun_cases(ctx):
+    from .. import clock_impl as ci
+    r = ctx.rng
+
+    class Halt(BaseException):
+        pass
+
+    for i in range(ctx.scale(150, 6000)):
+        tpb = r.choice([24, 48, 96, 480])
+        tempo = r.choice([60, 120, 90, 150])
+        state = {"now": 1000.0 + r.randint(0, 10 ** 6), "ticks": 0, "end_after": None, "how": None, "sleeps": 0, "max_sleeps": 0}
+
+        class Target:
+            ticks_per_beat = tpb
+
+            def tick(self_inner):
+                state["ticks"] += 1
+                if state["end_after"] is not None and state["ticks"] >= state["end_after"]:
+                    how = state["how"]
+                    state["end_after"] = None
+                    if how == "stop":
+                        clk.stop()
+                    elif how == "stopiteration":
+                        raise StopIteration
+                    else:
+                        raise ci.ScriptedFault()
+
+        clk = ci.Clock(Target(), tempo, tpb)
+        D = clk.tick_duration_seconds
+
+        class VTime:
+            def time(self_inner):
+                return state["now"]
+
+            def sleep(self_inner, _dt):
+                state["sleeps"] += 1
+                if state["sleeps"] > state["max_sleeps"]:
+                    raise Halt()
+                state["now"] += D * r.choice([0.25, 0.5, 1.0, 1.0, 1.5, 3.0])
+
+        saved = ci.clock_mod.time
+        ci.clock_mod.time = VTime()
+        problem = None
+        try:
+            runs = []
+            for run_no in range(r.randint(2, 3)):
+                how = r.choice(["stop", "stopiteration", "fault", "halt"])
+                state.update(ticks=0, sleeps=0, max_sleeps=r.randint(5, 60), how=how,
+                             end_after=(r.randint(1, 12) if how != "halt" else None))
+                t_start = state["now"]
+                try:
+                    clk.run()
+                except (StopIteration, ci.ScriptedFault, Halt):
+                    pass
+                elapsed = state["now"] - t_start
+                runs.append((how, state["ticks"], elapsed / D))
+                # ticks of THIS run never exceed the time elapsed in THIS run (one tick of slack for the phase)
+                if state["ticks"] > elapsed / D + 1e-6:
+                    problem = "run %d (%s) delivered %d ticks in %.2f tick durations of running time" % (
+                        run_no + 1, how, state["ticks"], elapsed / D)
+                    break
+                # the clock is idle for a while (nobody calls run()): time passes
+                state["now"] += D * r.choice([0, 5, 40, 400])
+        finally:
+            ci.clock_mod.time = saved
+        ctx.case(("rerun", i, tpb, tempo, tuple((h, n) for h, n, _ in runs)), nontrivial=True, validated=False,
+                 sample={"part": "clock run again", "tpb": tpb, "tempo": tempo, "runs": [(h, n, round(e, 2)) for h, n, e in runs]})
+        ctx.count("rerun")
+        if problem:
+            ctx.violation("%s:clock-makes-up-idle-time" % PROPERTY, problem + "; runs so far (how it ended, ticks, running time / tick): %s" % (
+                [(h, n, round(e, 2)) for h, n, e in runs],),
+                {"suite": "c14-rerun", "tpb": tpb, "tempo": tempo, "runs": [(h, n, e) for h, n, e in runs],
+                 "first_failing_clause": "floor(elapsed / tick duration) ticks, none doubled"})
+
+
 def run(ctx):
     reattach_cases(ctx)
+    rerun_cases(ctx)
     rng = ctx.rng
     cases = []
     n_mult = ctx.scale(4000, 60000)
